@@ -10,6 +10,7 @@ import (
 	"github.com/dadrus/heimdall/verif/props/c09"
 	"github.com/dadrus/heimdall/verif/props/c12"
 	"github.com/dadrus/heimdall/verif/props/c13"
+	"github.com/dadrus/heimdall/verif/props/c15"
 	"github.com/dadrus/heimdall/verif/props/c16"
 )
 
@@ -25,6 +26,7 @@ func main() {
 		c09.Check(),
 		c12.Check(),
 		c13.Check(),
+		c15.Check(),
 		c16.Check(),
 	} {
 		checks[c.ID] = c
